@@ -122,6 +122,8 @@ class Facts:
         with open(path) as fh:
             d = json.load(fh)
         self.path = path
+        import anchors
+        self.anchor_notes = anchors.recover(d) if not os.environ.get("RM_NO_ANCHOR_RECOVERY") else []
         self.meta = d["meta"]
         if H is not None and self.meta.get("nonce") != H:
             raise InfraError("fact file nonce mismatch")
